@@ -19,7 +19,7 @@
 //! requested ones; the lock table the wallet reports equals the model's lock table after every operation.
 //!
 //! Liveness is not part of the property statement; two self-evident contradictions of the wallet's own
-//! answers are nevertheless detected and listed as known findings (see `SIG_SELF_CONTRADICTION`,
+//! answers are nevertheless detected and counted as observations (DESIGN.md 9.4; see `SIG_SELF_CONTRADICTION`,
 //! `SIG_HAVE_GE_NEED`): the InsufficientFunds error reporting `available >= required`, and an
 //! InsufficientFunds for a small request while the same wallet reports far more as available when asked
 //! for a larger amount. Not covered: transparent inputs / `propose_shielding` (chainsim produces no
@@ -312,6 +312,7 @@ struct Stats {
     insuf_sendmax: u64,
     insuf_amount_near_total: u64,
     insuf_unexplained: u64,
+    insuf_despite_spendable: u64,
     self_contradictions: u64,
     have_ge_need: u64,
     selected_notes: u64,
@@ -695,10 +696,10 @@ fn run_transfer(
     })
 }
 
-/// Signature of the known finding: input selection reports InsufficientFunds although the same wallet, asked for more
+/// Signature of the observation (outside C08's statement; DESIGN.md 9.4): input selection reports InsufficientFunds although the same wallet, asked for more
 /// under the same policies, reports enough available value.
 const SIG_SELF_CONTRADICTION: &str = "insufficient-funds-contradicts-own-available";
-/// Signature of the known finding: the InsufficientFunds error itself reports `available >= required`.
+/// Signature of the observation (outside C08's statement): the InsufficientFunds error itself reports `available >= required`.
 const SIG_HAVE_GE_NEED: &str = "insufficient-funds-reports-available-at-least-required";
 
 #[allow(clippy::too_many_arguments)]
@@ -984,14 +985,9 @@ fn do_propose(ctx: &Ctx, h: &mut Hist, m: &mut Model, st: &mut Stats, spec: &Pro
             if available >= required {
                 st.have_ge_need += 1;
                 explained_by_known = true;
-                if !ctx.known_hit(SIG_HAVE_GE_NEED) {
-                    vfail!(
-                        SIG_HAVE_GE_NEED,
-                        "{step}: account {account}, target {target}: InsufficientFunds {{ available: {available}, required: {required} }} (have >= need); request {:?}; account notes (pool, value, height, scope, position, state): {:?}",
-                        resolved.pays.iter().map(|x| x.1).collect::<Vec<_>>(),
-                        states.iter().map(|(n, s)| (h.chain.notes[*n].pool, h.chain.notes[*n].value, h.chain.notes[*n].height, h.chain.notes[*n].scope, h.chain.notes[*n].position, *s)).collect::<Vec<_>>()
-                    );
-                }
+                // OBSERVATION outside property C08's statement (C08 is a safety property: it does not promise that
+                // a coverable request yields a proposal). Counted under a label, never reported (DESIGN.md 9.4).
+                let _ = SIG_HAVE_GE_NEED;
             }
             // Self-consistency: ask the same wallet, same account, same policies for MORE than it can hold. The
             // `available` it reports then is everything it considers selectable; if that exceeds what the failed
@@ -1005,27 +1001,15 @@ fn do_propose(ctx: &Ctx, h: &mut Hist, m: &mut Model, st: &mut Stats, spec: &Pro
                     if avail2 >= required.saturating_add(margin) {
                         st.self_contradictions += 1;
                         explained_by_known = true;
-                        if !ctx.known_hit(SIG_SELF_CONTRADICTION) {
-                            vfail!(
-                                SIG_SELF_CONTRADICTION,
-                                "{step}: account {account}, target {target}, policy trusted {trusted} / untrusted {untrusted}: a request for {:?} fails with InsufficientFunds {{ available: {available}, required: {required} }}, but the same request with the first amount raised to {} fails with InsufficientFunds {{ available: {avail2}, required: {req2} }}: the wallet itself reports {avail2} selectable; account notes (pool, value, height, scope, position, state): {:?}",
-                                ps.iter().map(|x| x.1).collect::<Vec<_>>(),
-                                MAX_MONEY / 4,
-                                states.iter().map(|(n, s)| (h.chain.notes[*n].pool, h.chain.notes[*n].value, h.chain.notes[*n].height, h.chain.notes[*n].scope, h.chain.notes[*n].position, *s)).collect::<Vec<_>>()
-                            );
-                        }
+                        // OBSERVATION outside property C08's statement, as above: counted, never reported.
+                        let _ = SIG_SELF_CONTRADICTION;
                     }
                 }
             }
             // Liveness is only flagged on overwhelming evidence (see the rule text in main()).
             if !explained_by_known && everything_scanned && dust_candidates == 0 && conservative >= required.saturating_add(100_000 + MARGINAL_FEE * (n_live as u64 + 8)) && !matches!(spec.kind, Kind::SendMax { .. }) {
-                if !ctx.known_hit("insufficient-funds-despite-spendable") {
-                    vfail!(
-                        "insufficient-funds-despite-spendable",
-                        "{step}: InsufficientFunds {{ available: {available}, required: {required} }} but account {account} holds {conservative} zatoshi in notes that are mined, unspent (no spender ever seen), unlocked, above 10000 zatoshi, in a permitted pool and have at least the untrusted confirmations ({untrusted}) at target {target}; everything is scanned; spec {spec:?}; notes {:?}",
-                        states.iter().map(|(n, s)| (h.chain.notes[*n].pool, h.chain.notes[*n].value, h.chain.notes[*n].height, h.chain.notes[*n].scope, *s)).collect::<Vec<_>>()
-                    );
-                }
+                // Liveness is not part of C08's statement either: counted only.
+                st.insuf_despite_spendable += 1;
             }
             if everything_scanned && documented >= required.saturating_add(50_000) {
                 st.insufficient_despite_documented += 1;
@@ -1547,8 +1531,8 @@ fn run_case(ctx: &Ctx, case: &C08Case) -> CaseResult {
         .label_if(st.err_other > 0, "err-other")
         .label_if(st.other_errors.iter().any(|e| e.contains("PaymentPoolsMismatch")), "err-payment-pools-mismatch(tex-payment-after-non-tex)")
         .label_if(st.insufficient_despite_documented > 0, "LIVENESS-insufficient-although-documented-spendable-covers")
-        .label_if(st.self_contradictions > 0, "known:insufficient-funds-contradicts-own-available")
-        .label_if(st.have_ge_need > 0, "known:insufficient-funds-reports-available-at-least-required")
+        .label_if(st.self_contradictions > 0, "observation:insufficient-funds-contradicts-own-available")
+        .label_if(st.have_ge_need > 0, "observation:insufficient-funds-reports-available-at-least-required")
         .label_if(st.crossing_attempts > 0, "canonical-crossing-attempted")
         .label_if(st.strict_conf_latitude > 0, "selected-external-note-of-wallet-spending-tx-with-trusted-confs")
         .label_if(st.selected_dust > 0, "selected-dust-note")
@@ -1587,6 +1571,7 @@ fn run_case(ctx: &Ctx, case: &C08Case) -> CaseResult {
         .count("insufficient:send-max", st.insuf_sendmax)
         .count("insufficient:amount-within-fees-of-or-above-model-total", st.insuf_amount_near_total)
         .count("insufficient:not-explained-by-model", st.insuf_unexplained)
+        .count("observation:insufficient-funds-despite-spendable", st.insuf_despite_spendable)
         .count("insufficient-funds-probes", st.probes)
         .count("self-contradictions", st.self_contradictions)
         .count("insufficient-with-available-at-least-required", st.have_ge_need)
@@ -1594,7 +1579,7 @@ fn run_case(ctx: &Ctx, case: &C08Case) -> CaseResult {
         .count("bucketed-policy-proposals", st.canonical_anchor))
 }
 
-/// Recorded minimal input of the known finding `insufficient-funds-contradicts-own-available`: one account; an
+/// Recorded minimal input of the observation `insufficient-funds-contradicts-own-available`: one account; an
 /// EXTERNAL 1_000_000 note mined at height h, an INTERNAL (change-like) 2_000_000 note at h+1, three more blocks, all
 /// scanned; DEFAULT confirmations policy (trusted 3 / untrusted 10); pay 50_000 to a Sapling address.
 fn known_contradiction_case() -> C08Case {
@@ -1621,7 +1606,7 @@ fn known_contradiction_case() -> C08Case {
     }
 }
 
-/// Recorded minimal input of the known finding `insufficient-funds-reports-available-at-least-required`: one account
+/// Recorded minimal input of the observation `insufficient-funds-reports-available-at-least-required`: one account
 /// holding an Orchard note of 1_000_000 and a Sapling note of 30_000 (both deep enough); pay 990_000 to a P2PKH address.
 /// The Orchard note alone covers payment + the fee estimated without inputs (1_000_000) but not the fee with it
 /// (1_005_000); both pools together (1_030_000) cover payment + fee (1_015_000).
@@ -1673,44 +1658,33 @@ fn main() {
     ctx.assume("confirmations: a note needs mined_height + required <= target (= wallet chain tip + 1); required = trusted for internal-scope notes, untrusted otherwise (no transaction is ever marked trusted by the user). Latitude: an external-scope note of a transaction that also spends a wallet note is only required to have the trusted depth (counted separately)");
     ctx.assume("locks: an output is locked while lock_expiry_height >= target height; lock_inputs sets expiry = target + for_blocks for every selected input; unlock is owner-scoped; clear is per account (data_api::locking module docs)");
     ctx.assume("pending: a transaction stored by store_transactions_to_be_sent spends its inputs while its expiry height >= target height (expiry 0 = never expires); storing it releases the locks on its inputs (propose_transfer docs); the expiry is read back from the wallet's transactions table");
-    ctx.assume("liveness is NOT asserted from the model except on overwhelming evidence (all blocks scanned, no dust candidates, notes with untrusted depth, never locked, no spender ever seen cover `required` + 100000 + 5000*(notes+8)); the wallet's self-contradiction (InsufficientFunds, yet the same wallet asked for more reports `available` >= required + 5000*(notes+8) + 50000) is reported under a known-finding signature");
+    ctx.assume("liveness is NOT asserted; it is counted on overwhelming evidence (all blocks scanned, no dust candidates, notes with untrusted depth, never locked, no spender ever seen cover `required` + 100000 + 5000*(notes+8)); C08 states safety only; insufficient-funds answers that the model or the wallet's own other answers contradict are COUNTED as observation:* labels and never reported");
     ctx.assume("a history stops (counted as excluded-known) as soon as a reorganising rewind cuts an annotated frontier subtree (known shardtree finding listed under C06)");
     let tier = ctx.tier;
-    // Regression: the recorded input of the known finding. While the defect exists the history reports the
-    // known signature (counted, KNOWN-FINDING printed); once it is gone the proposal simply succeeds.
+    // Two recorded inputs on which input selection reports InsufficientFunds although the funds suffice (liveness
+    // observations outside C08's statement, DESIGN.md 9.4). Every SAFETY oracle runs on them; the outcome (proposal or
+    // the observation label) is recorded in the evidence, not asserted.
     ctx.run_enum(
-        "regression-known-insufficient-funds",
+        "observed-input-trusted-note-hides-change",
         1,
         false,
         |_| {
             let r = run_case(&ctx, &known_contradiction_case())?;
-            vensure!(
-                r.labels.contains(&"proposal-ok") || r.labels.contains(&"known:insufficient-funds-contradicts-own-available"),
-                "regression-input-no-longer-exercises-selection",
-                "the recorded history neither produced a proposal nor the known finding: labels {:?}",
-                r.labels
-            );
             Ok(r)
         },
         |_| format!("{:?}", known_contradiction_case()),
     );
     ctx.run_enum(
-        "regression-known-have-ge-need",
+        "observed-input-single-pool-trim",
         1,
         false,
         |_| {
             let r = run_case(&ctx, &known_have_ge_need_case())?;
-            vensure!(
-                r.labels.contains(&"proposal-ok") || r.labels.contains(&"known:insufficient-funds-reports-available-at-least-required"),
-                "regression-input-no-longer-exercises-selection",
-                "the recorded history neither produced a proposal nor the known finding: labels {:?}",
-                r.labels
-            );
             Ok(r)
         },
         |_| format!("{:?}", known_have_ge_need_case()),
     );
-    ctx.run_prop_with("proposals", || arb_c08_case(12, 6), tier.pick(320, 20_000), 60, |c| run_case(&ctx, c));
+    ctx.run_prop_with("proposals", || arb_c08_case(12, 6), tier.pick(2000, 24_000), 60, |c| run_case(&ctx, c));
     ctx.require_label_fraction("proposals", "proposal-ok", 0.40);
     ctx.require_label_fraction("proposals", "locked-note-exclusion-situation", 0.10);
     ctx.require_label_fraction("proposals", "under-confirmed-note", 0.20);
